@@ -1,12 +1,31 @@
-/-! Prototype: schema-directed model of encoding/json for the shapes of the spine data model,
-    and the generic round-trip theorem -/
+/-! Schema-directed model of encoding/json for the shapes of the spine data model (DESIGN appendix B.4);
+    the generic round-trip theorem is in `Spine/JsonThm.lean`.
+
+    Object keys / json names are `Key := Nat`: the bytes of the name read as a base-256 numeral (an
+    injective coding, see `keyOfString` / `keyToString`). The regenerated schema (`Spine/Generated/Schema.lean`)
+    has ~4 000 field names and `wf` compares them pairwise per struct; the kernel does that on `Nat`
+    literals by GMP arithmetic in seconds, on `String`s not at all. -/
 namespace Spine.Json
+
+/-- a json name as a number: its bytes as a base-256 numeral (hex literal = ASCII text) -/
+abbrev Key := Nat
+
+def keyOfString (s : String) : Key := s.toUTF8.foldl (fun acc b => acc * 256 + b.toNat) 0
+
+def keyBytes : Nat → Key → List UInt8 → List UInt8
+  | 0, _, acc => acc
+  | fuel + 1, k, acc => if k = 0 then acc else keyBytes fuel (k / 256) (UInt8.ofNat (k % 256) :: acc)
+
+def keyToString (k : Key) : String :=
+  match String.fromUTF8? (ByteArray.mk (keyBytes (k + 1) k []).toArray) with
+  | some s => s
+  | none => "?"
 
 inductive Ty
   | str | num | bool
   | ptr (t : Ty)
   | slice (t : Ty)
-  | struct (fs : List (String × Bool × Ty))   -- json name, omitempty, type
+  | struct (fs : List (Key × Bool × Ty))   -- json name, omitempty, type
 
 inductive V
   | str (s : String) | num (n : Int) | bool (b : Bool)
@@ -15,7 +34,7 @@ deriving Inhabited
 
 inductive J
   | str (s : String) | num (n : Int) | bool (b : Bool) | null
-  | arr (xs : List J) | obj (kvs : List (String × J))
+  | arr (xs : List J) | obj (kvs : List (Key × J))
 deriving Inhabited
 
 def isEmptyV : V → Bool
@@ -37,13 +56,13 @@ def encode : Ty → V → J
 def encodeList : Ty → List V → List J
   | _, [] => []
   | t, v :: vs => encode t v :: encodeList t vs
-def encodeFields : List (String × Bool × Ty) → List V → List (String × J)
+def encodeFields : List (Key × Bool × Ty) → List V → List (Key × J)
   | (name, oe, t) :: fs, v :: vs =>
     if oe && isEmptyV v then encodeFields fs vs else (name, encode t v) :: encodeFields fs vs
   | _, _ => []
 end
 
-def lookup (k : String) : List (String × J) → Option J
+def lookup (k : Key) : List (Key × J) → Option J
   | [] => none
   | (k', j) :: rest => if k = k' then some j else lookup k rest
 
@@ -61,7 +80,7 @@ def decode : Ty → J → Option V
 def decodeList : Ty → List J → Option (List V)
   | _, [] => some []
   | t, x :: xs => do let v ← decode t x; let vs ← decodeList t xs; pure (v :: vs)
-def decodeFields : List (String × Bool × Ty) → List (String × J) → Option (List V)
+def decodeFields : List (Key × Bool × Ty) → List (Key × J) → Option (List V)
   | [], _ => some []
   | (name, _, t) :: fs, kvs => do
     let v ← match lookup name kvs with
@@ -79,18 +98,26 @@ def nonNull : Ty → Bool
 
 def nullable (t : Ty) : Bool := !nonNull t
 
+/-- the json names of a struct's fields -/
+def names (fs : List (Key × Bool × Ty)) : List Key := fs.map (·.1)
+
+/-- pairwise distinct (kept outside the recursion over `Ty` and on plain `Nat`s: this is the quadratic
+    part of `wf`, 29 000 comparisons for `FilterType`, and the kernel evaluates it on literals) -/
+def namesDistinct : List Key → Bool
+  | [] => true
+  | k :: ks => !(ks.contains k) && namesDistinct ks
+
 mutual
 /-- well-formed schema: pointers point to non-nullable types, slice elements are non-nullable,
-    `omitempty` only on pointer and slice fields, fields without `omitempty` are nullable too
-    (so that absence never arises for them), json names distinct per struct -/
+    `omitempty` only on pointer and slice fields (nullable types), json names distinct per struct -/
 def wf : Ty → Bool
   | .str => true | .num => true | .bool => true
   | .ptr t => nonNull t && wf t
   | .slice t => nonNull t && wf t
-  | .struct fs => wfFields fs
-def wfFields : List (String × Bool × Ty) → Bool
+  | .struct fs => namesDistinct (names fs) && wfFields fs
+def wfFields : List (Key × Bool × Ty) → Bool
   | [] => true
-  | (name, oe, t) :: fs => (!oe || nullable t) && wf t && !(fs.any fun f => f.1 = name) && wfFields fs
+  | (_, oe, t) :: fs => (!oe || nullable t) && wf t && wfFields fs
 end
 
 mutual
@@ -107,7 +134,7 @@ def typed : Ty → V → Bool
 def typedList : Ty → List V → Bool
   | _, [] => true
   | t, v :: vs => typed t v && typedList t vs
-def typedFields : List (String × Bool × Ty) → List V → Bool
+def typedFields : List (Key × Bool × Ty) → List V → Bool
   | [], [] => true
   | (_, _, t) :: fs, v :: vs => typed t v && typedFields fs vs
   | _, _ => false
@@ -123,9 +150,28 @@ def norm : Ty → V → V
 def normList : Ty → List V → List V
   | _, [] => []
   | t, v :: vs => norm t v :: normList t vs
-def normFields : List (String × Bool × Ty) → List V → List V
+def normFields : List (Key × Bool × Ty) → List V → List V
   | (_, oe, t) :: fs, v :: vs => (if oe && isEmptyV v then V.nil else norm t v) :: normFields fs vs
   | _, _ => []
+end
+
+mutual
+/-- equivalence of values up to "absent and empty lists are not distinguished" -/
+def equivV : V → V → Bool
+  | .str a, .str b => decide (a = b)
+  | .num a, .num b => decide (a = b)
+  | .bool a, .bool b => decide (a = b)
+  | .nil, .nil => true
+  | .nil, .list [] => true
+  | .list [], .nil => true
+  | .some a, .some b => equivV a b
+  | .list as, .list bs => equivList as bs
+  | .strct as, .strct bs => equivList as bs
+  | _, _ => false
+def equivList : List V → List V → Bool
+  | [], [] => true
+  | a :: as, b :: bs => equivV a b && equivList as bs
+  | _, _ => false
 end
 
 end Spine.Json
